@@ -381,8 +381,8 @@ func (kr *kvRun) apply(op kvOp) {
 		accts, root := kr.sl.FlushDirtyData()
 		kr.h++
 		if kr.prop == "C13" && kr.cfg.Cache[0] == 0 && kr.rng.Intn(2) == 0 {
-			// the executor starts the next block while the flushed one is still being committed: reads between
-			// FlushDirtyData and Commit are served by the account cache alone and must already see the block
+			// FlushDirtyData and Commit are separate calls of the ledger, and the property quantifies over reads
+			// anywhere between them: such reads are served by the account cache alone and must already see the block
 			// (only with the production cache sizes: a cache of 1-3 entries, the device this workload uses to
 			// provoke evictions, legitimately loses the flushed block before its commit)
 			kr.check(true, fmt.Sprintf("between flush and commit of block %d", kr.h))
